@@ -217,11 +217,15 @@ func checkC11(p *Program, r *Report) {
 	} else {
 		var id int
 		fmt.Sscanf(den, "s%d", &id)
-		want := polyMul(poly{"Q": 1}, cc.expand(cc.pc.vals[id], 0))
+		denP, have := cc.denPoly[den]
+		if !have {
+			denP = cc.expand(cc.pc.vals[id], 0)
+		}
+		want := polyMul(poly{"Q": 1}, denP)
 		if polyEqual(num, want) {
 			r.OK("R11.1", key+": steady flow Q routes to Q (weights sum to one identically in k, x, Δt)")
 		} else {
-			r.Fail("R11.1", okey, p.Pos(outPos.Pos()), fmt.Sprintf("with inflow = previous inflow = previous outflow = Q and no lateral the routed outflow is (%s)/(%s), not Q: the weights do not sum to one", showPoly(num), showPoly(cc.expand(cc.pc.vals[id], 0))))
+			r.Fail("R11.1", okey, p.Pos(outPos.Pos()), fmt.Sprintf("with inflow = previous inflow = previous outflow = Q and no lateral the routed outflow is (%s)/(%s), not Q: the weights do not sum to one", showPoly(num), showPoly(denP)))
 		}
 	}
 	// R11.2: what multiplies weight 1 now is what is carried as previous inflow
